@@ -20,6 +20,7 @@ RULE = (
     "are compared. Non-trivial = re-arm after a presentation, two nodes with overlapping episodes, or a failed request write followed by a "
     "retry; distinct = distinct case JSON."
     " Round 6: `hang_requests` - a request write that never completes until the application's receive timeout (virtual time) cancels it; read errors among the events."
+    ' Round 7: application sends (presentation request, reboot, req, set) among the events and before the first rejected message.'
 )
 ASSUMPTIONS = [
     "a failed request write surfaces as a transport error from that listen step (any library error is accepted)",
@@ -52,7 +53,7 @@ def _ops():
     )
     lines = gen.with_ack(gen.weighted((6, missing_kinds), (2, present), (2, never))).map(lambda l: ["rx", l])
     pause = st.sampled_from((1, 59, 61, 600, 3600, 86400)).map(lambda t: ["sleep", t])
-    events = st.sampled_from((["save"], ["reload"], ["session"], ["read_error", "read"], ["read_error", "failed"], ["send", [5, 255, 3, 0, 19, ""], None], ["send", [1, 255, 3, 0, 19, ""], None],
+    events = st.sampled_from((["save"], ["reload"], ["session"], ["read_error", "read"], ["read_error", "failed"], ["flag", 5, "reboot", True], ["flag", 6, "reboot", True], ["flag", 7, "reboot", True], ["send", [5, 255, 3, 0, 19, ""], None], ["send", [1, 255, 3, 0, 19, ""], None],
                               ["send", [2, 255, 3, 0, 19, ""], False]))
     return st.lists(gen.weighted((20, lines), (2, pause), (1, events)), min_size=8, max_size=30)
 
@@ -76,6 +77,8 @@ BETWEEN = (
     # the application itself sends a presentation request / other commands to the node
     ["send", [5, 255, 3, 0, 19, ""], None], ["send", [5, 255, 3, 1, 19, ""], False], ["send", [6, 255, 3, 0, 19, ""], None], ["send", [5, 255, 3, 0, 13, ""], None], ["send", [5, 1, 2, 0, 0, ""], None],
     ["send", [5, 1, 1, 0, 0, "1"], None],
+    # application-set node state
+    ["flag", 5, "reboot", True], ["flag", 5, "reboot", False], ["flag", 6, "reboot", True],
 )
 
 
@@ -89,7 +92,7 @@ def enumerate_cases(tier: str):
                         yield {"version": version, "registry": registry, "fail_requests": [], "listen_mode": "persistent" if len(first) % 2 else "fresh",
                                "ops": [["rx", first], between, ["rx", second], ["rx", "6;9;1;0;0;1\n"]]}
                 for event in BETWEEN:
-                    if event[0] == "send":
+                    if event[0] in ("send", "flag"):
                         # ... also BEFORE the first rejected message of the episode
                         yield {"version": version, "registry": registry, "fail_requests": [], "listen_mode": "fresh", "ops": [event, ["rx", first], ["rx", MISSING_KINDS[0]]]}
 
